@@ -121,7 +121,7 @@ BitsMatchStd ==
 \* the pinned length for concrete count vectors (printed for the behavioural binding):
 \* plain <<N, M>> (optional groups present); MSM <<nsat, nsig, ncell>>; VTEC <<layers, degree, order>>
 PlainVecs == << <<0, 0>>, <<1, 1>>, <<2, 1>>, <<5, 3>>, <<15, 1>>, <<31, 2>>, <<63, 0>>, <<255, 0>> >>
-MsmVecs   == << <<3, 2, 4>>, <<1, 1, 1>>, <<8, 4, 20>>, <<2, 3, 0>> >>
+MsmVecs   == << <<3, 2, 4>>, <<1, 1, 1>>, <<8, 4, 20>>, <<2, 3, 0>>, <<16, 4, 10>>, <<8, 8, 64>>, <<64, 1, 3>>, <<2, 32, 5>> >>    \* the last four: Nsat x Nsig = 64, the legal maximum
 VtecVecs  == << <<1, 1, 1>>, <<1, 3, 2>>, <<2, 4, 1>>, <<1, 16, 16>>, <<1, 16, 3>>, <<3, 2, 2>>, <<4, 5, 4>> >>
 IsMsm  == TableOf[id] = "msm" /\ Mid \div 10 \in 107 .. 113 /\ Mid % 10 \in 1 .. 7
 IsIgs  == TableOf[id] = "igs" /\ Sub # 201 /\ Sub % 20 \in 1 .. 7 /\ Sub \div 20 \in 1 .. 6
